@@ -11,6 +11,7 @@
 From Coq Require Import List String Bool.
 From AL.Gen Require Import Markers Rustc.
 From AL.Markers Require Import MarkerModel Tie16.
+From AL.Tie Require Tie_Types.
 Import ListNotations.
 Open Scope string_scope.
 
